@@ -30,7 +30,7 @@ def bounds(tier):
 
 def shards(tier):
     mmax = 25 if tier == 'quick' else 99
-    return [{'m': m} for m in range(1, mmax + 1)]
+    return [{'m': m, 'e': e} for m in range(1, mmax + 1) for e in range(4)]
 
 
 def dec(m, e):
@@ -78,6 +78,37 @@ def check_run(acc, m, e, n, rep, unit, cont=None):
         acc.outcomes[('continuation', ok2)] += 1
 
 
+def check_stopped(acc, m, e, n, unit):
+    """With a stop condition the axis is a prefix of the grid."""
+    dtF = dec(m, e)
+    dt = float(dtF)
+    T = float(dtF * n)
+    case = {'kind': 'stopped', 'm': m, 'e': e, 'n': n, 'unit': unit}
+    base = sim.Model(SPEC)
+    base.run([dt, unit], [T, unit])
+    pos = base.series(1, 'angular position')
+    k = max(1, n // 2)
+    if not (pos[k] < pos[min(k + 1, n)]):
+        return
+    thr = (pos[k] + pos[min(k + 1, n)]) / 2.0
+    mod = sim.Model(SPEC)
+    try:
+        mod.run([dt, unit], [T, unit], stop=sim.make_stop(mod, ['encoder', 1, '>=', [thr, 'rad']]))
+    except Exception as ex:
+        acc.violation(f'C11/stopped/run-error/{type(ex).__name__}', 'run succeeds', case, {'exc': repr(ex)[:200]})
+        return
+    acc.executions += 1
+    vals = [t.to(unit).value for t in mod.pt.time]
+    full = [t.to(unit).value for t in base.pt.time]
+    acc.transitions += len(vals)
+    if len(vals) > len(full) or vals != full[:len(vals)]:
+        acc.violation('C11/stopped/not-a-prefix', 'with a stop condition the axis is a prefix of the grid', case,
+                      {'stopped': vals[-3:], 'full': full[:len(vals)][-3:]})
+    elif len(vals) == len(full) and k + 1 < n:
+        acc.violation('C11/stopped/did-not-stop', 'harness expected an early stop', case, {'instants': len(vals)})
+    acc.outcomes[('stopped', len(vals) < len(full))] += 1
+
+
 def judge(acc, case, vals, start, dt, T, n, phase, first):
     """vals[0] is the start instant; then n further instants spaced dt, last == start + T."""
     got = len(vals) - 1
@@ -103,7 +134,7 @@ def run_shard(shard, tier):
     acc = Acc()
     m = shard['m']
     nmax = 60 if tier == 'quick' else 120
-    for e in range(4):
+    for e in [shard['e']]:
         for n in range(2, nmax + 1):
             for rep in ('mul', 'lit'):
                 units = UNITS if (n % 7 == 2 or tier != 'quick') else ['sec']
@@ -114,12 +145,18 @@ def run_shard(shard, tier):
                     check_run(acc, m, e, n, rep, unit, cont)
                     acc.nstates += 1
                     acc.cases += 1
+                    if rep == 'lit' and n >= 4 and (n % 3 == 1 or tier != 'quick'):
+                        check_stopped(acc, m, e, n, unit)
+                        acc.nstates += 1
     acc.sample({'dt': f'{m}e-2', 'n': 30, 'T': 'dt*n and decimal literal', 'units': UNITS})
     return acc
 
 
 def replay(case):
     acc = Acc()
+    if case.get('kind') == 'stopped':
+        check_stopped(acc, case['m'], case['e'], case['n'], case['unit'])
+        return acc.violations
     if case.get('kind') == 'run':
         check_run(acc, case['m'], case['e'], case['n'], case['rep'], case['unit'],
                   tuple(case['cont']) if case.get('cont') else None)
